@@ -125,47 +125,45 @@ Definition strip_opts (g : N) (o : option omsg) (p : path) : option omsg * bool 
 Fixpoint has_source_val (v : oval) : bool :=
   match v with
   | VScalar _ => false
-  | VMsg _ fs _ =>
-    (fix go (l : list (N * ret * oval)) : bool :=
-       match l with
-       | [] => false
-       | (_, r, w) :: tl => is_source r || has_source_val w || go tl
-       end) fs
-  | VList items =>
-    (fix go (l : list oval) : bool :=
-       match l with [] => false | w :: tl => has_source_val w || go tl end) items
+  | VMsg _ fs _ => existsb (fun f => is_source (snd (fst f)) || has_source_val (snd f)) fs
+  | VList items => existsb has_source_val items
   end.
 
 Definition has_source_fields (fs : list ofld) : bool :=
   existsb (fun f => is_source (fld_ret f) || has_source_val (fld_val f)) fs.
 
-(* copyWithoutSourceRetention: a fresh copy of the value without source-retention fields at any
-   depth; p is the source path of the value (field number already pushed); a repeated value
-   pushes the index of each item *)
+Section CopyLists.
+  Variable cp : path -> oval -> oval * list path.
+  (* the Range loop of copyWithoutSourceRetentionFields over the set fields of one message *)
+  Fixpoint copy_fields (p : path) (l : list ofld) : list ofld * list path :=
+    match l with
+    | [] => ([], [])
+    | f :: tl =>
+      let '(tl', rm) := copy_fields p tl in
+      if is_source (snd (fst f)) then (tl', (p ++ [fst (fst f)]) :: rm)
+      else let '(w', rw) := cp (p ++ [fst (fst f)]) (snd f) in
+           ((fst (fst f), snd (fst f), w') :: tl', rw ++ rm)
+    end.
+  (* the loop over the items of a repeated field: the index is pushed *)
+  Fixpoint copy_items (p : path) (l : list oval) (i : N) : list oval * list path :=
+    match l with
+    | [] => ([], [])
+    | w :: tl =>
+      let '(w', rw) := cp (p ++ [i]) w in
+      let '(tl', rm) := copy_items p tl (i + 1) in
+      (w' :: tl', rw ++ rm)
+    end.
+End CopyLists.
+
+(* copyWithoutSourceRetentionFields: a fresh copy of the value without source-retention fields at
+   any depth; p is the source path of the value (field number already pushed) *)
 Fixpoint copy_val (g : N) (p : path) (v : oval) {struct v} : oval * list path :=
   match v with
   | VScalar s => (VScalar s, [])
   | VMsg a fs unk =>
-    let '(fs', rem) :=
-      (fix go (l : list (N * ret * oval)) : list (N * ret * oval) * list path :=
-         match l with
-         | [] => ([], [])
-         | (n, r, w) :: tl =>
-           if is_source r then let '(tl', rm) := go tl in (tl', (p ++ [n]) :: rm)
-           else let '(w', rw) := copy_val g (p ++ [n]) w in
-                let '(tl', rm) := go tl in ((n, r, w') :: tl', rw ++ rm)
-         end) fs in
-    (VMsg (fresh g a) fs' unk, rem)
+    let '(fs', rem) := copy_fields (copy_val g) p fs in (VMsg (fresh g a) fs' unk, rem)
   | VList items =>
-    let '(items', rem) :=
-      (fix go (l : list oval) (i : N) : list oval * list path :=
-         match l with
-         | [] => ([], [])
-         | w :: tl =>
-           let '(w', rw) := copy_val g (p ++ [i]) w in
-           let '(tl', rm) := go tl (i + 1) in (w' :: tl', rw ++ rm)
-         end) items 0 in
-    (VList items', rem)
+    let '(items', rem) := copy_items (copy_val g) p items 0 in (VList items', rem)
   end.
 
 Definition strip_opts_fixed (g : N) (o : option omsg) (p : path) : option omsg * bool * list path :=
@@ -181,34 +179,39 @@ Definition strip_opts_fixed (g : N) (o : option omsg) (p : path) : option omsg *
   end.
 
 (* ---------------------------------------------------------------- the descriptor walk *)
+Section AllSlots.
+  Variable f : path -> elem -> elem * bool * list path.
+  (* stripOptionsFromAll: pt is the path of the collection, the index is pushed *)
+  Fixpoint strip_all (pt : path) (l : list elem) (i : N) : list elem * bool * list path :=
+    match l with
+    | [] => ([], false, [])
+    | x :: tl =>
+      let '(x', cx, rx) := f (pt ++ [i]) x in
+      let '(tl', ct, rt) := strip_all pt tl (i + 1) in
+      (x' :: tl', cx || ct, rx ++ rt)
+    end.
+  (* the sequence of stripOptionsFromAll calls of one strip...From<Kind> function *)
+  Fixpoint strip_slots (p : path) (ss : list (list elem)) (sc : list (N * kind)) : list (list elem) * bool * list path :=
+    match ss, sc with
+    | s :: ss', (t, _) :: sc' =>
+      let '(s', c1, r1) := strip_all (p ++ [t]) s 0 in
+      let '(ss'', c2, r2) := strip_slots p ss' sc' in
+      (s' :: ss'', c1 || c2, r1 ++ r2)
+    | _, _ => (ss, false, [])
+    end.
+End AllSlots.
+
 Section Walk.
   Variable so : N -> option omsg -> path -> option omsg * bool * list path.
   (* shallowCopy: does the copy of a descriptor message keep its unknown fields *)
   Variable ku : bool.
 
-  (* strip...From<Kind> with stripOptionsFromAll inlined: p is the path of the element *)
+  (* strip...From<Kind>: p is the path of the element *)
   Fixpoint strip_elem (g : N) (p : path) (e : elem) {struct e} : elem * bool * list path :=
     match e with
     | Elem k a o rest unk slots =>
       let '(o', och, orem) := so g o (p ++ [opts_tag k]) in
-      let '(slots', sch, srem) :=
-        (fix go_slots (ss : list (list elem)) (sc : list (N * kind)) {struct ss}
-           : list (list elem) * bool * list path :=
-           match ss, sc with
-           | s :: ss', (t, _) :: sc' =>
-             let '(s', ch1, rem1) :=
-               (fix go_all (l : list elem) (i : N) {struct l} : list elem * bool * list path :=
-                  match l with
-                  | [] => ([], false, [])
-                  | x :: tl =>
-                    let '(x', cx, rx) := strip_elem g (p ++ [t; i]) x in
-                    let '(tl', ct, rt) := go_all tl (i + 1) in
-                    (x' :: tl', cx || ct, rx ++ rt)
-                  end) s 0 in
-             let '(ss'', ch2, rem2) := go_slots ss' sc' in
-             (s' :: ss'', ch1 || ch2, rem1 ++ rem2)
-           | _, _ => (ss, false, [])
-           end) slots (schema k) in
+      let '(slots', sch, srem) := strip_slots (strip_elem g) p slots (schema k) in
       let dirty := och || sch in
       (if dirty then Elem k (fresh g a) o' rest (if ku then unk else []) slots' else e, dirty, orem ++ srem)
     end.
@@ -231,6 +234,173 @@ End Walk.
 
 Definition strip := strip_file strip_opts false.
 Definition strip_fixed := strip_file strip_opts_fixed true.
+
+(* ---------------------------------------------------------------- vocabulary of the property *)
+Fixpoint is_prefix (q p : path) : bool :=
+  match q with
+  | [] => true
+  | x :: q' => match p with [] => false | y :: p' => (x =? y) && is_prefix q' p' end
+  end.
+(* the location path p points into one of the options qs *)
+Definition under_any (qs : list path) (p : path) : bool := existsb (fun q => is_prefix q p) qs.
+
+(* a predicate on (options, unknown fields of the element) holds at every element of the tree *)
+Fixpoint elem_all (P : option omsg -> list N -> bool) (e : elem) : bool :=
+  match e with
+  | Elem _ _ o _ unk slots => P o unk && forallb (forallb (elem_all P)) slots
+  end.
+
+(* a field with source retention somewhere in the options, at any depth *)
+Definition opts_has_source (o : option omsg) : bool :=
+  match o with None => false | Some (_, fs, _) => has_source_fields fs end.
+Fixpoint elem_has_source (e : elem) : bool :=
+  match e with
+  | Elem _ _ o _ _ slots => opts_has_source o || existsb (existsb elem_has_source) slots
+  end.
+Definition no_source (f : file) : Prop := elem_has_source (f_root f) = false.
+
+(* ... directly in the options message (depth 1) *)
+Definition opts_top_source (o : option omsg) : bool :=
+  match o with None => false | Some (_, fs, _) => existsb (fun f => is_source (fld_ret f)) fs end.
+Fixpoint elem_top_source (e : elem) : bool :=
+  match e with
+  | Elem _ _ o _ _ slots => opts_top_source o || existsb (existsb elem_top_source) slots
+  end.
+
+(* no source-retention field hides inside the value of a field that is itself kept *)
+Definition opts_nested_free (o : option omsg) : bool :=
+  match o with
+  | None => true
+  | Some (_, fs, _) => forallb (fun f => is_source (fld_ret f) || negb (has_source_val (fld_val f))) fs
+  end.
+Definition nested_source_free (e : elem) : bool := elem_all (fun o _ => opts_nested_free o) e.
+
+(* no unknown fields on options messages and descriptor messages *)
+Definition is_nil {A} (l : list A) : bool := match l with [] => true | _ => false end.
+Definition opts_no_unknown (o : option omsg) : bool :=
+  match o with None => true | Some (_, _, unk) => is_nil unk end.
+Definition no_unknown (e : elem) : bool := elem_all (fun o unk => opts_no_unknown o && is_nil unk) e.
+
+(* every element has exactly the child collections of its kind *)
+Fixpoint wf_elem (e : elem) : bool :=
+  match e with
+  | Elem k _ _ _ _ slots => Nat.eqb (length slots) (length (schema k)) && forallb (forallb wf_elem) slots
+  end.
+
+(* the tree without its source-retention fields (any depth) and without addresses; an options
+   message that has neither fields nor unknown bytes left counts as absent *)
+Section PruneFields.
+  Variable pv : oval -> oval.
+  Fixpoint prune_fields (l : list ofld) : list ofld :=
+    match l with
+    | [] => []
+    | f :: tl => if is_source (snd (fst f)) then prune_fields tl
+                 else (fst (fst f), snd (fst f), pv (snd f)) :: prune_fields tl
+    end.
+End PruneFields.
+Fixpoint prune_val (v : oval) : oval :=
+  match v with
+  | VScalar p => VScalar p
+  | VMsg _ fs unk => VMsg 0 (prune_fields prune_val fs) unk
+  | VList items => VList (map prune_val items)
+  end.
+Definition prune_opts (o : option omsg) : option omsg :=
+  match o with
+  | None => None
+  | Some (_, fs, unk) =>
+    match prune_fields prune_val fs, unk with
+    | [], [] => None
+    | fs', _ => Some (0, fs', unk)
+    end
+  end.
+Fixpoint prune_elem (e : elem) : elem :=
+  match e with
+  | Elem k _ o rest unk slots => Elem k 0 (prune_opts o) rest unk (map (map prune_elem) slots)
+  end.
+
+(* the objects (Go pointers) a descriptor consists of *)
+Inductive obj :=
+| OElem (e : elem)
+| OMsg (a : N) (fs : list ofld) (unk : list N)
+| OSci (a : N) (locs : list loc).
+Definition obj_addr (x : obj) : N :=
+  match x with OElem (Elem _ a _ _ _ _) => a | OMsg a _ _ => a | OSci a _ => a end.
+Fixpoint val_objs (v : oval) : list obj :=
+  match v with
+  | VScalar _ => []
+  | VMsg a fs unk => OMsg a fs unk :: flat_map (fun f => val_objs (snd f)) fs
+  | VList items => flat_map val_objs items
+  end.
+Definition opts_objs (o : option omsg) : list obj :=
+  match o with None => [] | Some (a, fs, unk) => val_objs (VMsg a fs unk) end.
+Fixpoint elem_objs (e : elem) : list obj :=
+  match e with
+  | Elem _ _ o _ _ slots => OElem e :: opts_objs o ++ flat_map (flat_map elem_objs) slots
+  end.
+Definition file_objs (f : file) : list obj :=
+  elem_objs (f_root f) ++ match f_sci f with Some (a, locs) => [OSci a locs] | None => [] end.
+
+(* the option paths that are removed, read off the input: rs gives the paths for one options
+   message at its path *)
+Section RemovedPaths.
+  Variable rs : path -> option omsg -> list path.
+  Section Lists.
+    Variable rp : path -> elem -> list path.
+    Fixpoint removed_all (pt : path) (l : list elem) (i : N) : list path :=
+      match l with [] => [] | x :: tl => rp (pt ++ [i]) x ++ removed_all pt tl (i + 1) end.
+    Fixpoint removed_slots (p : path) (ss : list (list elem)) (sc : list (N * kind)) : list path :=
+      match ss, sc with
+      | s :: ss', (t, _) :: sc' => removed_all (p ++ [t]) s 0 ++ removed_slots p ss' sc'
+      | _, _ => []
+      end.
+  End Lists.
+  Fixpoint removed_elem (p : path) (e : elem) : list path :=
+    match e with
+    | Elem k _ o _ _ slots => rs (p ++ [opts_tag k]) o ++ removed_slots removed_elem p slots (schema k)
+    end.
+End RemovedPaths.
+
+(* pinned code: the source-retention fields of the options message itself, or the whole options
+   when nothing else is set *)
+Definition removed_top (p : path) (o : option omsg) : list path :=
+  match o with
+  | None => []
+  | Some (_, fs, _) =>
+    match filter (fun f => is_source (fld_ret f)) fs, filter (fun f => negb (is_source (fld_ret f))) fs with
+    | [], _ => []
+    | _, [] => [p]
+    | srcs, _ => map (fun f => p ++ [fld_num f]) srcs
+    end
+  end.
+
+(* repaired code: the source-retention fields at any depth (a repeated message pushes the index) *)
+Section RemovedDeep.
+  Variable rv : path -> oval -> list path.
+  Fixpoint removed_fields (p : path) (l : list ofld) : list path :=
+    match l with
+    | [] => []
+    | f :: tl => (if is_source (snd (fst f)) then [p ++ [fst (fst f)]] else rv (p ++ [fst (fst f)]) (snd f))
+                 ++ removed_fields p tl
+    end.
+  Fixpoint removed_items (p : path) (l : list oval) (i : N) : list path :=
+    match l with [] => [] | w :: tl => rv (p ++ [i]) w ++ removed_items p tl (i + 1) end.
+End RemovedDeep.
+Fixpoint removed_val (p : path) (v : oval) : list path :=
+  match v with
+  | VScalar _ => []
+  | VMsg _ fs _ => removed_fields removed_val p fs
+  | VList items => removed_items removed_val p items 0
+  end.
+Definition removed_deep (p : path) (o : option omsg) : list path :=
+  match o with
+  | None => []
+  | Some (_, fs, unk) =>
+    if negb (has_source_fields fs) then []
+    else match prune_fields prune_val fs, unk with
+         | [], [] => p :: removed_fields removed_val p fs
+         | _, _ => removed_fields removed_val p fs
+         end
+  end.
 
 (* ---------------------------------------------------------------- correspondence *)
 (* equality up to the names of fresh objects: an address below g must be the same address
@@ -315,8 +485,9 @@ Definition file_sim (g : N) (f f' : file) : bool :=
 (* one observation of the real code: generation (number of objects of the input), the input, the
    result, whether the result is the input pointer, and the same for stripping the result again
    (generation g2 = number of objects seen so far) *)
-Inductive ret_case := RC (fixed : bool) (g : N) (input out : file) (same : bool) (g2 : N) (again : file) (same2 : bool).
+Inductive ret_case := RC (fixed : bool) (g : N) (input out : file) (same : bool) (g2 : N) (again : option file) (same2 : bool).
 
+(* again = None: the dump of the second result is identical to the dump of the first *)
 Definition ret_chk (c : ret_case) : bool :=
   match c with
   | RC fixed g input out same g2 again same2 =>
@@ -324,5 +495,5 @@ Definition ret_chk (c : ret_case) : bool :=
     let '(m, ch) := st g input in
     let '(m2, ch2) := st g2 out in
     file_sim g m out && Bool.eqb (negb ch) same &&
-    file_sim g2 m2 again && Bool.eqb (negb ch2) same2
+    file_sim g2 m2 (match again with Some a => a | None => out end) && Bool.eqb (negb ch2) same2
   end.
